@@ -55,6 +55,7 @@ theorem removeLiq_spec {s s' : St} {w x rb ro : Nat} {o : Out}
         | exact hlk'
         | exact hlk2
         | omega
+        | (dsimp only [setW, burnLocked]; omega)
         | simp
     · simp only [he, if_false]
       refine ⟨?_, ?_, ?_, ?_, ?_, ?_, ?_, ?_, ?_, ?_, ?_, ?_, ?_, ?_, ?_⟩ <;>
@@ -65,6 +66,7 @@ theorem removeLiq_spec {s s' : St} {w x rb ro : Nat} {o : Out}
         | exact hlk'
         | exact hlk2
         | omega
+        | (dsimp only [setW, burnLocked]; omega)
         | simp
 
 /-- the base asset never leaves through any operation but `removeLiquidityProxy` -/
